@@ -161,16 +161,16 @@ pub fn plan(property: &str, tier: Tier) -> Option<Plan> {
     let (level, rule, assumptions, wall): (&'static str, &'static str, Vec<&'static str>, u64) = match property {
         "C01" => {
             let a = ["C01"];
-            jobs.push(g("c01/catalogue", "rel", if q { 6 } else { 9 }).armed(&a).congruence(if q { 2 } else { 3 }));
-            jobs.push(g("c01/grammar1", "rel", if q { 6 } else { 9 }).armed(&a));
-            jobs.push(g(if q { "c01/grammar2-repr" } else { "c01/grammar2" }, "rel", if q { 5 } else { 7 }).armed(&a));
-            jobs.push(g("c01/reobserve", "rel", if q { 8 } else { 12 }).armed(&a));
-            jobs.push(g("c01/reobserve2", "rel", if q { 9 } else { 12 }).armed(&a));
+            jobs.push(g("c01/catalogue", "rel", if q { 6 } else { 8 }).armed(&a).congruence(if q { 2 } else { 3 }));
+            jobs.push(g("c01/grammar1", "rel", if q { 6 } else { 8 }).armed(&a));
+            jobs.push(g(if q { "c01/grammar2-repr" } else { "c01/grammar2" }, "rel", if q { 5 } else { 6 }).armed(&a));
+            jobs.push(g("c01/reobserve", "rel", if q { 8 } else { 10 }).armed(&a));
+            jobs.push(g("c01/reobserve2", "rel", if q { 9 } else { 10 }).armed(&a));
             jobs.push(g("c01/catalogue", "dbg", if q { 5 } else { 7 }).armed(&a));
-            jobs.push(g("shapes/binds", "rel", if q { 5 } else { 8 }).armed(&a));
+            jobs.push(g("shapes/binds", "rel", if q { 5 } else { 7 }).armed(&a));
             if !q {
-                jobs.push(g("c01/grammar3-maps", "rel", 6).armed(&a));
-                jobs.push(g("c01/grammar3-binds", "rel", 6).armed(&a));
+                jobs.push(g("c01/grammar3-maps", "rel", 5).armed(&a));
+                jobs.push(g("c01/grammar3-binds", "rel", 5).armed(&a));
             }
             ("model_checking", mc_rule, vec!["value domain {0,1,2}", "programs of <= 9 nodes", "<= 2 simultaneous observers", "node functions pure, cutoffs equality-like (the property's proviso)"], if q { 60 } else { 1500 })
         }
@@ -179,28 +179,28 @@ pub fn plan(property: &str, tier: Tier) -> Option<Plan> {
             jobs.push(g("shapes/binds", "rel", if q { 6 } else { 8 }).armed(&a));
             jobs.push(g("shapes/binds", "dbg", if q { 5 } else { 7 }).armed(&a));
             if !q {
-                jobs.push(g("c01/grammar3-maps", "rel", 6).armed(&a));
-                jobs.push(g("c01/grammar3-binds", "rel", 6).armed(&a));
+                jobs.push(g("c01/grammar3-maps", "rel", 5).armed(&a));
+                jobs.push(g("c01/grammar3-binds", "rel", 5).armed(&a));
             }
-            jobs.push(g("c01/catalogue", "rel", if q { 6 } else { 9 }).armed(&a).congruence(if q { 2 } else { 3 }));
-            jobs.push(g("c01/grammar1", "rel", if q { 6 } else { 9 }).armed(&a));
-            jobs.push(g(if q { "c01/grammar2-repr" } else { "c01/grammar2" }, "rel", if q { 5 } else { 7 }).armed(&a));
+            jobs.push(g("c01/catalogue", "rel", if q { 6 } else { 8 }).armed(&a).congruence(if q { 2 } else { 3 }));
+            jobs.push(g("c01/grammar1", "rel", if q { 6 } else { 8 }).armed(&a));
+            jobs.push(g(if q { "c01/grammar2-repr" } else { "c01/grammar2" }, "rel", if q { 5 } else { 6 }).armed(&a));
             jobs.push(g("c03/inner", "rel", if q { 4 } else { 6 }).armed(&a));
             jobs.push(g("c01/catalogue", "dbg", if q { 5 } else { 7 }).armed(&a));
             ("model_checking", mc_rule, vec!["value domain {0,1,2}", "programs of <= 7 nodes", "internal recompute schedules reached through observe / un-observe orders of <= 2-3 observers"], if q { 60 } else { 1500 })
         }
         "C03" => {
             let a = ["C03"];
-            jobs.push(g("c03/nested", "rel", if q { 6 } else { 9 }).armed(&a));
-            jobs.push(g("shapes/binds", "rel", if q { 6 } else { 8 }).armed(&a));
+            jobs.push(g("c03/nested", "rel", if q { 6 } else { 8 }).armed(&a));
+            jobs.push(g("shapes/binds", "rel", if q { 6 } else { 7 }).armed(&a));
             jobs.push(g("c03/nested", "dbg", if q { 5 } else { 7 }).armed(&a));
             if !q {
-                jobs.push(g("c01/grammar3-binds", "rel", 6).armed(&a));
+                jobs.push(g("c01/grammar3-binds", "rel", 5).armed(&a));
             }
-            jobs.push(g("c03/inner", "rel", if q { 4 } else { 7 }).armed(&a));
+            jobs.push(g("c03/inner", "rel", if q { 4 } else { 6 }).armed(&a));
             jobs.push(g("c03/stale_rhs", "rel", if q { 6 } else { 9 }).armed(&a));
-            jobs.push(g("c01/catalogue", "rel", if q { 6 } else { 9 }).armed(&a));
-            jobs.push(g(if q { "c01/grammar2-repr" } else { "c01/grammar2" }, "rel", if q { 5 } else { 7 }).armed(&a));
+            jobs.push(g("c01/catalogue", "rel", if q { 6 } else { 8 }).armed(&a));
+            jobs.push(g(if q { "c01/grammar2-repr" } else { "c01/grammar2" }, "rel", if q { 5 } else { 6 }).armed(&a));
             jobs.push(g("c03/stale_rhs", "dbg", if q { 5 } else { 8 }).armed(&a));
             ("model_checking", mc_rule, vec!["inner nodes are observed only while their defining bind is observed (DESIGN §8)", "value domain {0,1,2}", "bind nesting depth <= 2"], if q { 60 } else { 1500 })
         }
@@ -225,30 +225,30 @@ pub fn plan(property: &str, tier: Tier) -> Option<Plan> {
         }
         "C05" => {
             let a = ["C05"];
-            jobs.push(g("shapes/binds", "rel", if q { 6 } else { 8 }).armed(&a));
+            jobs.push(g("shapes/binds", "rel", if q { 6 } else { 7 }).armed(&a));
             if !q {
-                jobs.push(g("c01/grammar3-binds", "rel", 6).armed(&a));
+                jobs.push(g("c01/grammar3-binds", "rel", 5).armed(&a));
             }
-            jobs.push(g("c05/clones", "rel", if q { 6 } else { 9 }).armed(&a));
-            jobs.push(g("c01/catalogue", "rel", if q { 6 } else { 9 }).armed(&a));
-            jobs.push(g(if q { "c01/grammar2-repr" } else { "c01/grammar2" }, "rel", if q { 5 } else { 7 }).armed(&a));
+            jobs.push(g("c05/clones", "rel", if q { 6 } else { 8 }).armed(&a));
+            jobs.push(g("c01/catalogue", "rel", if q { 6 } else { 8 }).armed(&a));
+            jobs.push(g(if q { "c01/grammar2-repr" } else { "c01/grammar2" }, "rel", if q { 5 } else { 6 }).armed(&a));
             jobs.push(g("c03/inner", "rel", if q { 4 } else { 6 }).armed(&a));
             jobs.push(g("c05/clones", "dbg", if q { 5 } else { 7 }).armed(&a));
             ("model_checking", mc_rule, vec!["dependency cone computed syntactically by the harness from the program and the reference's current bind right-hand sides"], if q { 60 } else { 1500 })
         }
         "C06" => {
             let a = ["C06"];
-            jobs.push(g(if q { "c06/cutoffs" } else { "c06/cutoffs-full" }, "rel", if q { 6 } else { 9 }).armed(&a));
+            jobs.push(g(if q { "c06/cutoffs" } else { "c06/cutoffs-full" }, "rel", if q { 6 } else { 8 }).armed(&a));
             jobs.push(g("c01/catalogue", "rel", if q { 6 } else { 8 }).armed(&a));
             jobs.push(g("c01/grammar1", "rel", if q { 6 } else { 8 }).armed(&a));
-            jobs.push(g("c01/reobserve2", "rel", if q { 8 } else { 11 }).armed(&a));
-            jobs.push(g("shapes/binds", "rel", if q { 6 } else { 8 }).armed(&a));
-            jobs.push(g("c06/cutoffs", "dbg", if q { 4 } else { 7 }).armed(&a));
+            jobs.push(g("c01/reobserve2", "rel", if q { 8 } else { 10 }).armed(&a));
+            jobs.push(g("shapes/binds", "rel", if q { 6 } else { 7 }).armed(&a));
+            jobs.push(g("c06/cutoffs", "dbg", if q { 4 } else { 6 }).armed(&a));
             ("model_checking", mc_rule, vec!["expert nodes excluded (as the property states)", "depend_on and map_ref-over-map_with_old outputs are not judged for exact re-invocation (DESIGN §6 C06)"], if q { 60 } else { 1500 })
         }
         "C07" => {
             let a = ["C07"];
-            jobs.push(g("c07/reads", "rel", if q { 6 } else { 9 }).armed(&a));
+            jobs.push(g("c07/reads", "rel", if q { 6 } else { 8 }).armed(&a));
             // update handlers that write a variable; C01 is armed too: after every stabilise the observers must show
             // the from-scratch values for the assignment that was current when it was called (C07's snapshot clause)
             jobs.push(g("c07/handler_writes", "rel", if q { 6 } else { 8 }).armed(&a));
